@@ -510,6 +510,7 @@ def _attach_labware(att: Attachment):
                     "post_comp": post_comp,
                     "exc": exc,
                     "status": status,
+                    "k": k,
                     "depth": A.depth,
                     "compositions": kw.get("compositions", a[0] if a else None),
                 }
